@@ -46,6 +46,8 @@ func c05Schema(r *rng.Rand) *spec.Node {
 		o.NoIssuePath = true
 		o.Posts = r.Intn(3) == 0
 		o.ModChains = r.Intn(4) == 0
+		o.Pre = r.Intn(4) == 0 // Preprocess around catching nodes (its function turns the input into the wrapped schema's input)
+		o.PreWeight = 8
 		switch r.Intn(10) {
 		case 0:
 			o.TopKinds = []spec.Kind{spec.Slice}
@@ -200,7 +202,10 @@ func catchInstances(n *spec.Node, mode ref.Mode, data any, val any, path string,
 			}
 			catchInstances(n.Elem, mode, nil, p.V, path, cp(step{deref: true}), out)
 		}
-	case spec.Custom, spec.Pre:
+	case spec.Pre:
+		// transparent in the destination; the wrapped node is reached whenever the function does not refuse
+		catchInstances(n.Elem, mode, data, val, path, steps, out)
+	case spec.Custom:
 	default:
 		if n.Eff().HasCatch {
 			*out = append(*out, catchInst{path: path, steps: steps, node: n})
@@ -548,7 +553,8 @@ func (c05) RunCase(c *core.Ctx) {
 					}
 					if inst, ok := instByPath[ci.Path]; ok && ci.Dtype == inst.node.DType() {
 						// coerce issues and the bool tests (which take no options, so cannot be given a unique code) are attributed by path
-						if ci.Code == "coerce" || (inst.node.Kind == spec.Bool && ci.Code == "eq") {
+						// (the type-mismatch issue of a Preprocess wrapper around the node is the wrapper's, not the catching node's)
+						if (ci.Code == "coerce" && !strings.HasPrefix(ci.Err, "preprocess expected")) || (inst.node.Kind == spec.Bool && ci.Code == "eq") {
 							failed[ci.Path] = true
 							continue
 						}
